@@ -1,6 +1,6 @@
 """C16 - references and memory: ownership discipline of object references."""
 from .. import engine
-from ..rules import refs, cursor, splitcommit
+from ..rules import refs, cursor, splitcommit, alloc
 
 
 def tu_check(tu):
@@ -9,7 +9,9 @@ def tu_check(tu):
     sp = refs.slot_pair(tu)
     sf = refs.setitem_fresh(tu)
     sc = splitcommit.analyse_tu(tu)
-    r["findings"] = r["findings"] + c["findings"] + sp["findings"] + sf["findings"] + sc["findings"]
+    nr = alloc.analyse_null_results(tu)
+    r["findings"] = r["findings"] + c["findings"] + sp["findings"] + sf["findings"] + sc["findings"] + nr["findings"]
+    r["stats"]["null_result_sites"] = nr["stats"]["null_result_sites"]
     r["stats"]["setitem_sites"] = sf["sites"]
     r["stats"]["split_sites"] = sc["stats"]["split_call_sites"] + sc["stats"]["split_commit_stores"]
     r["stats"]["cursor"] = c["stats"]
@@ -19,7 +21,7 @@ def tu_check(tu):
 
 def run(tier="quick", seed=0, use_cache=True):
     res = engine.Result("C16")
-    res.rules = ["LOCAL-REF", "CURSOR-HOLD", "SLOT-PAIR", "RELEASE-ATTACHED", "SETITEM-FRESH", "SPLIT-COMMIT"]
+    res.rules = ["LOCAL-REF", "CURSOR-HOLD", "SLOT-PAIR", "RELEASE-ATTACHED", "SETITEM-FRESH", "SPLIT-COMMIT", "NULL-RESULT"]
     res.explanation = (
         "Ownership dataflow (alias classes with an owned-reference count, "
         "NULL-ness refinement, out-parameter and returns-new-reference "
@@ -48,7 +50,7 @@ def run(tier="quick", seed=0, use_cache=True):
         "to containers the function created empty. SPLIT-COMMIT: a split "
         "function has no failure exit once the new sibling's len is set (its "
         "destructor would release entries the original node still owns), and "
-        "its caller none before the sibling is stored as a child. Decides the local half of 'exactly one "
+        "its caller none before the sibling is stored as a child. NULL-RESULT: the result of a repository function that has a `return NULL` path (a node that cannot be activated, an empty tree) is tested before it is dereferenced or passed to a NULL-intolerant API, on every path (the ALLOC-CHECKED dataflow of C17 over the inferred set of may-return-NULL functions). Decides the local half of 'exactly one "
         "reference per stored object / no leak on any path'; ownership of "
         "node fields across functions and out-of-bounds accesses need a "
         "sanitizer run and are not decided.")
@@ -75,6 +77,8 @@ def run(tier="quick", seed=0, use_cache=True):
     res.floor("cursor key acquire/release events", cur_ev, 50)
     res.count("CURSOR-HOLD", cur_ev)
     slot = sum(r["stats"]["slot_stores"] for r in out.values())
+    res.floor("call sites of may-return-NULL repository functions (OO)", oo["null_result_sites"], 45)
+    res.count("NULL-RESULT", sum(r["stats"]["null_result_sites"] for r in out.values()))
     res.floor("key/value slot copies in object families", slot, 60)
     res.count("SLOT-PAIR", slot)
     res.floor("in-place slot release sites incl. accepted idioms (OO)", oo["slot_release_sites"], 3)
